@@ -26,16 +26,21 @@ deriving Inhabited
 
 structure Run where
   sys : Sys := {}
-  trace : List FsOp := []
+  start : Sys := {}            -- memory of the current process generation when it started
+  base : Disk := []            -- what the current process generation found on disk when it started
+  trace : List FsOp := []      -- file-system operations of the current generation
   marks : List Mark := []
 deriving Inhabited
+
+/-- the disk after a kill right after operation k of the current generation -/
+def Run.crashDisk (r : Run) (k : Nat) : Disk := Disk.applyAll r.base (r.trace.take k)
 
 /-- execute one call (a call that refers to nothing is skipped) -/
 def Run.exec (r : Run) (op : AOp) : Run :=
   match step r.sys op with
   | none => r
   | some (s', ops) =>
-      { sys := s', trace := r.trace ++ ops,
+      { sys := s', start := r.start, base := r.base, trace := r.trace ++ ops,
         marks := r.marks ++ [⟨op, r.trace.length, r.trace.length + ops.length, r.sys, s'⟩] }
 
 def runAll (ops : List AOp) : Run := ops.foldl Run.exec {}
@@ -51,29 +56,48 @@ def lastDone (marks : List Mark) (k : Nat) : Option Mark :=
   (marks.filter (fun m => m.stop ≤ k)).getLast?
 
 /-- states fragment `i` may be found in after a kill at k -/
-def allowedBits (marks : List Mark) (k i : Nat) : List (List Nat) :=
+def allowedBits (start : Sys) (marks : List Mark) (k i : Nat) : List (List Nat) :=
   match inFlight marks k with
   | some m => [m.before.bitsOf i, m.after.bitsOf i]
   | none => match lastDone marks k with
       | some m => [m.after.bitsOf i]
-      | none => [[]]
+      | none => [start.bitsOf i]
 
-def allowedKeys (marks : List Mark) (k : Nat) : List (List (String × Nat)) :=
+def allowedKeys (start : Sys) (marks : List Mark) (k : Nat) : List (List (String × Nat)) :=
   match inFlight marks k with
   | some m => [m.before.keys, m.after.keys]
   | none => match lastDone marks k with
       | some m => [m.after.keys]
-      | none => [[]]
+      | none => [start.keys]
 
 /-- Does the crash state at k meet the property? -/
 def crashOk (r : Run) (k : Nat) : Bool :=
-  let d := crashAt r.trace k
+  let d := r.crashDisk k
   (List.range r.sys.frags.length).all (fun i =>
     match recoverFrag d i with
     | none => false
-    | some b => (allowedBits r.marks k i).contains b) &&
+    | some b => (allowedBits r.start r.marks k i).contains b) &&
   (match recoverKeys d with
    | none => false
-   | some m => (allowedKeys r.marks k).contains m)
+   | some m => (allowedKeys r.start r.marks k).contains m)
+
+/-- The next process generation starts from what it recovers: its memory is the replayed disk. -/
+def restartSys (s : Sys) (d : Disk) : Sys :=
+  { frags := s.frags.mapIdx (fun i f => { f with bits := (recoverFrag d i).getD [], opN := 0, pending := false }),
+    keys := (recoverKeys d).getD [], keysOpen := s.keysOpen }
+
+/-- Kill after operation k (clamped), restart: the new generation reopens every fragment and the
+translate log on the crash state; leftover `.snapshotting` files stay where they are and every
+fragment without one gets a long leftover planted (content irrelevant: never read, truncated by the
+next snapshot); MaxOpN is raised so that only explicit and Store/ClearRow snapshots happen. -/
+def Run.restart (r : Run) (k : Nat) : Run :=
+  let d := r.crashDisk (min k r.trace.length)
+  let s := restartSys r.sys d
+  let s := { s with frags := s.frags.map (fun f => { f with maxOpN := 1000000 }) }
+  let planted := (List.range s.frags.length).foldl (fun (d : Disk) i =>
+    match d.get (.snap i) with
+    | some _ => d
+    | none => d.set (.snap i) [.log (.add 0), .log (.add 0)]) d
+  { sys := s, start := s, base := planted, trace := [], marks := [] }
 
 end PV.C09
